@@ -342,3 +342,34 @@ def _file_list_syntax(ctx):
                    and p._file_maker_parsers['file']._mk_file_maker is parse_file_list._mk_file_maker__regular_file
                    and p._file_maker_parsers['dir']._mk_file_maker is parse_file_list._mk_file_maker__dir,
                    'enumeration')
+
+
+# ============================================================================== FILES-CONDITION: the validators of every part
+
+from contracts.common import count_prefix
+from contracts.C15_dirtrees import DDV_HELPER
+from exactly_lib.type_val_deps.dep_variants.ddv import ddv_validators
+
+
+def entry_has_matcher(entry):
+    return entry[1] is not None
+
+
+def n_validators(files):
+    """one validator per file name and one per matcher"""
+    return len(files) + count_prefix(files, len(files), entry_has_matcher)
+
+
+# (ddv_validators.all_of is interpreted from its source here -- C03 has it `inline` --: the combined validator is the
+# conjunction `AndValidator` of exactly the list it is given when that has two or more elements)
+M.contract(P_FC + ':_DdvHelper.validator_validator_of_files', params=dict(self=DDV_HELPER), returns=Any_,
+           ensures={'the validator of a FILES-CONDITION combines one validator per file name and one per matcher '
+                    '(none is dropped)': lambda self, result:
+           n_validators(self._files) < 2
+           or (isinstance(result, ddv_validators.AndValidator)
+               and len(result.validators) == n_validators(self._files))},
+           raises_only=())
+M.loop(P_FC + ':_DdvHelper.validator_validator_of_files', 0,
+       invariant=lambda _i, self, validators:
+       len(validators) == _i + count_prefix(self._files, _i, entry_has_matcher),
+       modifies=dict(validators=MListOf(Any_), file_name='local', mb_matcher='local'))
